@@ -25,7 +25,10 @@ ASSUMPTIONS = [
 REQUIRED = {"steps.call_log": {"quick": 2500, "thorough": 100000}, "steps.status_mapping": {"quick": 4000, "thorough": 200000},
             "steps.dry_run_calls_nothing": {"quick": 300, "thorough": 10000}, "history.retry_final_status": {"quick": 100, "thorough": 4000},
             "history.second_run_status": {"quick": 100, "thorough": 4000}, "steprun.return_iff_not_failed": {"quick": 5000, "thorough": 200000}}
-REQUIRED_SEEN = {"step_status": ["passed", "failed", "error", "pending", "pending_warn", "undefined", "skipped", "untested"]}
+REQUIRED_SEEN = {"step_status": ["passed", "failed", "error", "pending", "pending_warn", "undefined", "skipped", "untested"],
+                 "background_step_with_placeholder": ["feature"],
+                 "error_exception_class": ["RuntimeError", "ValueError", "KeyError", "NotImplementedError", "OSError", "LookupError",
+                                           "TypeError", "ZeroDivisionError", "CustomError", "AttributeError"]}
 EXHAUSTIVE = True
 EXHAUSTIVE_SCOPE = "all outcome sequences up to the length bound x background depth x scenario/outline-row x plain/@wip/dry-run"
 NSHARDS = {"quick": 16, "thorough": 16}
@@ -94,6 +97,8 @@ def install_step_wrapper(lab, mon):
 
 def run_one(lab, mon, case, sample=False, **kw):
     obs = lab.run(case["program"], args=case["args"], continue_after_failed_step=case["cfg"].get("cafs", False), **kw)
+    for cls in obs.seen_error_classes:
+        mon.seen("error_exception_class", cls)
     pred = runmodel.predict(case["program"], case["cfg"])
     nontriv = RB.nonpass_count(case) > 0 or sum(len(i["steps"]) for i in pred.instances) >= 2
     mon.case(RB.strip_case(case), nontriv)
@@ -250,10 +255,14 @@ def run(spec, mon):
         if i % 3 == 0:
             # continue_after_failed_step: what runs after an undefined step is not demanded, so an abort hidden
             # behind one could not be predicted -- KeyboardInterrupt outcomes are left out of these cases
-            case = RB.gen_case(rng, p_names=0.1, gen={"outcomes": [o for o in OUTCOMES if o != "ki"]})
+            case = RB.gen_case(rng, p_names=0.1, gen={"outcomes": [o for o in OUTCOMES if o != "ki"], "p_bg_param": 0.3})
             case["cfg"]["cafs"] = True
         else:
-            case = RB.gen_case(rng, p_names=0.1)
+            # backgrounds at both levels, outlines inside rules, examples placeholders inside background steps
+            case = RB.gen_case(rng, p_names=0.1, gen={"p_bg_param": 0.4, "p_background": 0.7, "p_rule_background": 0.6,
+                                                      "p_outline": 0.45} if i % 3 == 1 else {"p_bg_param": 0.3})
+        if "<x>" in repr([f.get("background") for f in case["program"]["features"]]):
+            mon.seen("background_step_with_placeholder", "feature")
         run_one(lab, mon, case, sample=(i == 0 and shard == 0))
     for i in range(12 if tier == "quick" else 500):
         history_retry(lab, mon, rng)
